@@ -34,7 +34,41 @@ func menu(w *chain.World) []chain.Action {
 		chain.V1Pay(true, 2), chain.V1Chain(), chain.V1SF(true), chain.V1Form(1, 2, 100), chain.V1Revise("pay"), chain.V1Proof(false),
 		chain.V2Pay(chain.AddrV2, true, 2), chain.V2Pay(chain.AddrV1, false, 1), chain.V2Chain(chain.AddrV2), chain.V2Chain2(chain.AddrACS), chain.V2SF(true), chain.V2SFChain(), chain.V2Form(1, 2, 100), chain.V2Form(0, 1, 10),
 		chain.V2Revise("pay"), chain.V2Renew("partial"), chain.V2Proof(), chain.V2Expire(), chain.V2Attest(),
+		// transactions whose lists have different lengths / several elements and kinds per transaction
+		chain.V1Gather(), chain.Merge(chain.V1Pay(true, 2), chain.V1SF(true)), chain.Merge(chain.V1Form(1, 2, 100), chain.V1Pay(false, 1)),
+		chain.Merge(chain.V2Pay(chain.AddrV2, true, 2), chain.V2SF(true)), chain.Merge(chain.V2Form(1, 2, 100), chain.V2Attest()), chain.Merge(chain.V2Pay(chain.AddrACS, false, 1), chain.V2Revise("pay")),
 	}
+}
+
+// coveredSweep: for every v1 signature of the block, the covered fields are replaced by {one list: [k]} for each of the
+// ten index lists and every k from 0 to one past the LONGEST list of the transaction - in particular every index that
+// lies between the lengths of two lists (an index checked against the wrong list's length).
+func coveredSweep(b *types.Block) []chain.Mutation {
+	var out []chain.Mutation
+	for ti := range b.Transactions {
+		t := &b.Transactions[ti]
+		maxLen := 0
+		for _, n := range []int{len(t.SiacoinInputs), len(t.SiacoinOutputs), len(t.FileContracts), len(t.FileContractRevisions), len(t.StorageProofs), len(t.SiafundInputs), len(t.SiafundOutputs), len(t.MinerFees), len(t.ArbitraryData), len(t.Signatures)} {
+			if n > maxLen {
+				maxLen = n
+			}
+		}
+		for si := range t.Signatures {
+			sg := &t.Signatures[si]
+			old := sg.CoveredFields
+			for li, name := range []string{"SiacoinInputs", "SiacoinOutputs", "FileContracts", "FileContractRevisions", "StorageProofs", "SiafundInputs", "SiafundOutputs", "MinerFees", "ArbitraryData", "Signatures"} {
+				for k := 0; k <= maxLen+1; k++ {
+					li, k := li, uint64(k)
+					out = append(out, chain.Mutation{Path: fmt.Sprintf(".Transactions[%d].Signatures[%d].CoveredFields={%s:[%d]}", ti, si, name, k), Apply: func() {
+						cf := types.CoveredFields{}
+						*[]*[]uint64{&cf.SiacoinInputs, &cf.SiacoinOutputs, &cf.FileContracts, &cf.FileContractRevisions, &cf.StorageProofs, &cf.SiafundInputs, &cf.SiafundOutputs, &cf.MinerFees, &cf.ArbitraryData, &cf.Signatures}[li] = []uint64{k}
+						sg.CoveredFields = cf
+					}, Undo: func() { sg.CoveredFields = old }})
+				}
+			}
+		}
+	}
+	return out
 }
 
 // extremes enumerates structural mutations: everything the generic walker produces plus extreme values for
@@ -360,8 +394,15 @@ func probe(c *vf.Ctx, x *chain.Explorer, prev *chain.World, b types.Block, bs co
 	if p, st := vf.Try(func() { _ = consensus.ValidateHeader(cs, b.Header()) }); p != nil {
 		report("ValidateHeader", p, st)
 	}
-	// transactions one at a time against a fresh MidState (as a transaction pool would)
+	// transactions one at a time against a fresh MidState (as a transaction pool would). Not for supplement mutations:
+	// the supplement is assembled by the node from its own validated store; a corrupted supplement reaches validation
+	// from outside only through ValidateBlock (which checks it against the accumulator first), so
+	// ValidateTransaction(ms, txn, corrupted supplement) is outside the property (false alarm corrected 2026-09-26:
+	// three inputs whose supplement values were set near 2^128 overflowed the unchecked input sum).
 	for i, t := range b.Transactions {
+		if target == "supplement" {
+			break
+		}
 		var ts consensus.V1TransactionSupplement
 		if i < len(bs.Transactions) {
 			ts = bs.Transactions[i]
@@ -435,7 +476,7 @@ func resealBlock(cs consensus.State, b *types.Block) {
 
 // Run is the validation half of C10.
 func Run(c *vf.Ctx) {
-	c.Set("validation_rule", "at every accepted block of a small union-alphabet DFS on every network family: every single structural mutation of the block and of its supplement (reflection walk: every field +-1 / byte flips / list drop, dup, swap, empty; integers and currencies set to 0, 1, 2^63, 2^64-1, 2^128-1, the unassigned-leaf sentinel; proofs resized to 0/63/64/65 hashes; out-of-range indices appended to every index list; pointers and interfaces set to nil; wrong / empty resolution types; policies nil, nested 31/32/33/200 deep, 255/256/1024/1025 wide) is fed - as is and re-sealed (payout, commitment, nonce recomputed) - to ValidateBlock, ValidateOrphan, ValidateHeader, ValidateTransaction, ValidateV2Transaction and ValidateTransactionElements under recover; accepted mutants are applied and reverted; for a subset of block shapes (quick: 20 per network, thorough: all) additionally every PAIR of value-setting mutations on different leaves (at most 120 per block, evenly thinned)")
+	c.Set("validation_rule", "at every accepted block of a small union-alphabet DFS on every network family: every single structural mutation of the block and of its supplement (reflection walk: every field +-1 / byte flips / list drop, dup, swap, empty; integers and currencies set to 0, 1, 2^63, 2^64-1, 2^128-1, the unassigned-leaf sentinel; proofs resized to 0/63/64/65 hashes; out-of-range indices appended to every index list; pointers and interfaces set to nil; wrong / empty resolution types; policies nil, nested 31/32/33/200 deep, 255/256/1024/1025 wide; for every v1 signature the covered fields replaced by {one index list: [k]} for each of the ten lists and every k up to one past the transaction's longest list) is fed - as is and re-sealed (payout, commitment, nonce recomputed) - to ValidateBlock, ValidateOrphan, ValidateHeader, ValidateTransaction, ValidateV2Transaction and ValidateTransactionElements under recover; accepted mutants are applied and reverted; for a subset of block shapes (quick: 14 per network, thorough: all) additionally every PAIR of value-setting mutations on different leaves (at most 120 per block, evenly thinned)")
 	nets := []string{"mixed", "v1-eras", "v2-only", "v2-eph5"}
 	for _, n := range nets {
 		if c.Expired() {
@@ -469,7 +510,7 @@ func Run(c *vf.Ctx) {
 			}
 			c.Count("blocks_mutated", 1)
 			b := deepCopyBlock(a.B)
-			for _, mt := range extremes(&b) {
+			for _, mt := range append(extremes(&b), coveredSweep(&b)...) {
 				if notDecodable(mt.Path) {
 					c.Count("skipped_not_decodable", 1)
 					continue
@@ -485,7 +526,7 @@ func Run(c *vf.Ctx) {
 			// pairs: crashes that need TWO unusual values at once (a sum that overflows only when two addends are extreme,
 			// an index that is out of range only for a shortened list, ...): every pair of value-setting mutations
 			// (integers / currencies to extreme values, proofs resized, index lists extended) on different leaves
-			if pairShapes.Add(1) <= int64(vf.Pick(c, 20, 1<<30)) {
+			if pairShapes.Add(1) <= int64(vf.Pick(c, 14, 1<<30)) {
 				var num []chain.Mutation
 				for _, mt := range extremes(&b) {
 					if !notDecodable(mt.Path) && (strings.Contains(mt.Path, "=") || strings.Contains(mt.Path, "[len=") || strings.Contains(mt.Path, "[append ")) && !strings.Contains(mt.Path, "-policy") && !strings.Contains(mt.Path, "nested-") && !strings.Contains(mt.Path, "wide-") && !strings.Contains(mt.Path, "total-") {
@@ -571,7 +612,7 @@ func Replay(c *vf.Ctx, cs Case) {
 	}
 	if cs.Target == "block" {
 		b := deepCopyBlock(a.B)
-		for _, mt := range extremes(&b) {
+		for _, mt := range append(extremes(&b), coveredSweep(&b)...) {
 			if mt.Path == cs.Path {
 				mt.Apply()
 				probe(c, x, &prev, b, a.BS, "block", mt.Path, cs.Trace, false)
